@@ -500,3 +500,6 @@ def shrink(l):
             q = dict(p)
             q[key] = val
             yield emit(q)
+
+
+KNOWN_MUST_MATCH_MODEL = True   # inside a known finding's region the observation must still equal the model's (which reproduces the listed defect); see lib/vf/run.py
